@@ -259,6 +259,8 @@ pub(crate) trait ChangeMarker {
     fn change_marker(&self) -> &Arc<RwLock<bool>>;
 
     fn changed(&self) -> bool {
+        #[cfg(stam_verif)]
+        crate::verif_hooks::yield_point("changed.read");
         let mut result = true;
         if let Ok(changed) = self.change_marker().read() {
             result = *changed;
@@ -267,12 +269,16 @@ pub(crate) trait ChangeMarker {
     }
 
     fn mark_changed(&self) {
+        #[cfg(stam_verif)]
+        crate::verif_hooks::yield_point("changed.mark");
         if let Ok(mut changed) = self.change_marker().write() {
             *changed = true;
         }
     }
 
     fn mark_unchanged(&self) {
+        #[cfg(stam_verif)]
+        crate::verif_hooks::yield_point("changed.unmark");
         if let Ok(mut changed) = self.change_marker().write() {
             *changed = false;
         }
